@@ -35,7 +35,7 @@ def mutating_effects(es: Set[str]) -> Set[str]:
     return {e for e in es if e.startswith(READ_FORBIDDEN_PREFIX)}
 
 
-@rule("C15.R1", ["C15"], min_instances=25, design="3.15")
+@rule("C15.R1", ["C15", "C06", "C01"], min_instances=25, design="3.15")
 def read_apis_effect_free(ctx):
     """Public methods that are not write/append operations have no mutating file or memory effect."""
     csv = csv_cls(ctx)
@@ -67,7 +67,8 @@ def read_apis_effect_free(ctx):
                 e = sorted(mut)[0]
                 ch = per[csv].get(e) or per[mem].get(e)
                 msg = f"read API has effect {sorted(mut)[:4]} via {chain_str(ch)}"
-            yield Ob("C15.R1", ["C15"], f"{m.qual} | read API effect set", not mut, msg, m.loc(),
+            stor = any(e.startswith(("MEM.", "PRIMARY.write", "PRIMARY.truncate", "FS.")) for e in mut)
+            yield Ob("C15.R1", ["C15"] + (["C06", "C01"] if stor else []), f"{m.qual} | read API effect set", not mut, msg, m.loc(),
                      {"effects": sorted(e for e in allfx if not e.startswith(("INDEX.", "USER.", "STORED.", "RAISE")))})
 
 
